@@ -319,9 +319,23 @@ func c16Run(st *vstat.Stats, p c16Plan) *viol {
 			}
 		}
 	}
+	// the same handle now appends (a node reads with its ignore list and posts through the same handle): the numbering
+	// must continue at the length of the log, whatever the handle has read or skipped before
+	extra := 1 + len(p.ReadFrom)%3
+	for i := 0; i < extra; i++ {
+		if err := rd.Send(storage.Message{Event: fmt.Sprintf("after-read-%d", i), Data: []byte{byte(i)}, SenderAddr: "reader"}); err != nil {
+			return violf("send-failed", "send through a handle that has read with ignore lists: %v", err)
+		}
+	}
 	rd.UnignoreMessages()
-	if got, err := rd.GetMessages(0); err != nil || len(got) != total {
-		return violf("unignore", "after UnignoreMessages GetMessages(0) returned %d entries, err %v", len(got), err)
+	got, err := rd.GetMessages(0)
+	if err != nil || len(got) != total+extra {
+		return violf("unignore", "after UnignoreMessages GetMessages(0) returned %d entries (expected %d), err %v", len(got), total+extra, err)
+	}
+	for pos, m := range got {
+		if m.Offset != uint64(pos) {
+			return violf("offset-not-position", "after sends through a handle that had read %d time(s) with %d ignored id(s) and %d ignored offset(s): entry at position %d (%s) has offset %d", len(p.ReadFrom), len(idList), len(offList), pos, m.Event, m.Offset)
+		}
 	}
 
 	// classification
